@@ -138,6 +138,11 @@ def run_case(case: Dict[str, Any], ctx) -> None:
         m, src = progs.build_module(prog, case["seed"])
         ctx.sample({"emitted_source": src})
         inputs = progs.make_inputs(prog, case["seed"] + 5)
+    # a third of the cases feed a plain DATA batch (inputs without requires_grad): the gradient flowing into a linear's output must
+    # still be quantised - it also feeds the weight / bias gradients
+    req_in = root_case or case["seed"] % 3 != 0 or not any(p_.requires_grad for p_ in m.parameters())
+    if not req_in:
+        ctx.count("form:inputs-without-requires_grad")
     has_q = root_case or any(o["op"] in ("linear_f", "nn_linear", "uu_linear", "U_linear", "sdpa") for o in prog["ops"])
     try:
         sim = simulate_fp8(m) if fmt_name == "fp8" else simulate_format(m, fwd, bwd)
@@ -147,15 +152,15 @@ def run_case(case: Dict[str, Any], ctx) -> None:
     ctx.count("programs:transformed")
     params = {k: v for k, v in sim.named_parameters()}
     torch._dynamo.utils.counters.clear()
-    ins_u = [t.detach().clone().requires_grad_(True) if t.is_floating_point() else t.clone() for t in inputs]
+    ins_u = [t.detach().clone().requires_grad_(req_in) if t.is_floating_point() else t.clone() for t in inputs]
     with QuantLog() as qlog, pinned_randint(shape_keyed_randint):
         try:
             out_u = sim(*ins_u)
             outs_u = list(out_u) if isinstance(out_u, (tuple, list)) else [out_u]
             g = torch.Generator().manual_seed(case["seed"] + 9)
             ups = [torch.randn(y.shape, generator=g, dtype=y.dtype) for y in outs_u]
-            names = [f"input{i}" for i, t in enumerate(ins_u) if t.is_floating_point()] + sorted(params)
-            leaves_u = [t for t in ins_u if t.is_floating_point()] + [params[k] for k in sorted(params)]
+            names = [f"input{i}" for i, t in enumerate(ins_u) if t.is_floating_point() and req_in] + sorted(params)
+            leaves_u = [t for t in ins_u if t.is_floating_point() and req_in] + [params[k] for k in sorted(params)]
             gu = torch.autograd.grad(outs_u, leaves_u, ups, allow_unused=True)
         except Exception as e:
             feat = [f for f in feats if f in ("F.linear:kw", "sdpa:mask-pos", "F.linear:none2")]
@@ -179,7 +184,7 @@ def run_case(case: Dict[str, Any], ctx) -> None:
         ctx.violation(f"C15:quantises-with-a-format-the-caller-did-not-supply:{what}", f"used {extra}, supplied {sorted(allowed)}", source=src, fmt=fmt_name)
     # ---- reference: hand-quantised interpreter ------------------------------------------------------------
     pref = {k: v.detach().clone().requires_grad_(True) for k, v in params.items()}
-    ins_r = [t.detach().clone().requires_grad_(True) if t.is_floating_point() else t.clone() for t in inputs]
+    ins_r = [t.detach().clone().requires_grad_(req_in) if t.is_floating_point() else t.clone() for t in inputs]
     quant = progs.Quant(fwd, bwd)
     with pinned_randint(shape_keyed_randint):
         if root_case:
@@ -191,7 +196,7 @@ def run_case(case: Dict[str, Any], ctx) -> None:
         else:
             mod_attrs = {md["name"]: {"constraint": "to_output_scale"} for md in prog["mods"] if md["type"] == "uu.Linear"}
             outs_r, _ = progs.interpret(prog, pref, ins_r, "plain", quant=quant, mod_attrs=mod_attrs)
-        leaves_r = [t for t in ins_r if t.is_floating_point()] + [pref[k] for k in sorted(params)]
+        leaves_r = [t for t in ins_r if t.is_floating_point() and req_in] + [pref[k] for k in sorted(params)]
         gr = torch.autograd.grad(outs_r, leaves_r, ups, allow_unused=True)
     if root_case:
         ctx.count("root-layer:checked")
@@ -223,11 +228,11 @@ def run_case(case: Dict[str, Any], ctx) -> None:
         try:
             other = simulate_format(torch.nn.Sequential(torch.nn.Linear(3, 2)), FPFormat(5, 2, "nearest"), FPFormat(5, 2, "nearest"))
             other(torch.ones(2, 3))
-            ins_2 = [t.detach().clone().requires_grad_(True) if t.is_floating_point() else t.clone() for t in inputs]
+            ins_2 = [t.detach().clone().requires_grad_(req_in) if t.is_floating_point() else t.clone() for t in inputs]
             with QuantLog() as qlog2, pinned_randint(shape_keyed_randint):
                 out_2 = sim(*ins_2)
                 outs_2 = list(out_2) if isinstance(out_2, (tuple, list)) else [out_2]
-                leaves_2 = [t for t in ins_2 if t.is_floating_point()] + [params[k] for k in sorted(params)]
+                leaves_2 = [t for t in ins_2 if t.is_floating_point() and req_in] + [params[k] for k in sorted(params)]
                 g2 = torch.autograd.grad(outs_2, leaves_2, ups, allow_unused=True)
         except Exception as e:
             ctx.violation("C15:transformed-module-raises-on-a-later-call:" + exc_key(e), repr(e), source=src, fmt=fmt_name)
@@ -262,11 +267,11 @@ def run_case(case: Dict[str, Any], ctx) -> None:
             return
     # ---- lossless pair: bit-for-bit the untransformed module ---------------------------------------------
     if fmt_name == "lossless" and not bad:
-        ins_o = [t.detach().clone().requires_grad_(True) if t.is_floating_point() else t.clone() for t in inputs]
+        ins_o = [t.detach().clone().requires_grad_(req_in) if t.is_floating_point() else t.clone() for t in inputs]
         out_o = m(*ins_o)
         outs_o = list(out_o) if isinstance(out_o, (tuple, list)) else [out_o]
         po = {k: v for k, v in m.named_parameters()}
-        go = torch.autograd.grad(outs_o, [t for t in ins_o if t.is_floating_point()] + [po[k] for k in sorted(po)], ups, allow_unused=True)
+        go = torch.autograd.grad(outs_o, [t for t in ins_o if t.is_floating_point() and req_in] + [po[k] for k in sorted(po)], ups, allow_unused=True)
         ctx.count("lossless:bit-compared")
         same = all(bits_equal(a.detach(), b.detach()) for a, b in zip(outs_u, outs_o)) and all(
             (a is None and b is None) or (a is not None and b is not None and bits_equal(a, b)) for a, b in zip(gu, go))
